@@ -1,6 +1,7 @@
 import PlzVerif.Lemmas.RuleHash
 import PlzVerif.Generated.C08
 import PlzVerif.Generated.C07
+import PlzVerif.Model.ParseOrder
 /-!
 C07  Target hashes are deterministic across runs and parallelism.
 
@@ -142,5 +143,62 @@ theorem C07_partial_hash_check_aliasing (c : Ctx) (t : Target)
 
 example : couldModify ({} : Target) = false ∧ (∀ x ∈ ({ hashes := [[97, 98]] } : Target).hashes, unprefix x = x) := by
   decide
+
+/-! ### independence of what else was parsed (package level) -/
+
+section ParseOrder
+open PlzVerif.ParseOrder
+
+/-- Evaluating a package leaves the cached frozen CONFIG of every subincluded file as it was.  This is C17's
+    non-interference property (packages cannot mutate each other's values) specialised to the subinclude cache; it is an
+    explicit hypothesis here until C17's theorem can be imported. -/
+def ConfigIsolated (after : World → Pkg → World) : Prop := ∀ w p, after w p = w
+
+/-- PARTIAL (hypothesis `ConfigIsolated` is C17's, not proved here for the real interpreter; the model abstracts the asp
+    interpreter to CONFIG merging): under isolation the hashes reported for a package's targets are those of evaluating
+    it alone — whatever other packages the invocation parsed before it, in whatever order (`schedule` is arbitrary,
+    which covers the set and order of requested targets, the thread count and the scheduler's choices). -/
+theorem C07_partial_parse_order (after : World → Pkg → World) (iso : ConfigIsolated after)
+    (schedule : List Pkg) (w : World) (p : Pkg) (h : p ∈ schedule) :
+    runWith after w schedule p = some (hashOf w p) := by
+  induction schedule with
+  | nil => cases h
+  | cons q rest ih =>
+    by_cases e : q = p
+    · simp [runWith, e]
+    · have hm : p ∈ rest := by
+        rcases List.mem_cons.1 h with h | h
+        · exact absurd h.symm e
+        · exact h
+      simp only [runWith, e, if_false, iso w q]
+      exact ih hm
+
+/-- Two invocations that both evaluate `p` report the same hashes for it. -/
+theorem C07_partial_invocations_agree (after : World → Pkg → World) (iso : ConfigIsolated after)
+    (s₁ s₂ : List Pkg) (w : World) (p : Pkg) (h₁ : p ∈ s₁) (h₂ : p ∈ s₂) :
+    runWith after w s₁ p = runWith after w s₂ p := by
+  rw [C07_partial_parse_order after iso s₁ w p h₁, C07_partial_parse_order after iso s₂ w p h₂]
+
+/-- The copying merge is isolated, so for it the statement holds outright. -/
+theorem C07_copying_merge_isolated : ConfigIsolated (worldAfter false) := by
+  intro w p; rfl
+
+theorem C07_parse_order_copying (s₁ s₂ : List Pkg) (w : World) (p : Pkg) (h₁ : p ∈ s₁) (h₂ : p ∈ s₂) :
+    run false w s₁ p = run false w s₂ p :=
+  C07_partial_invocations_agree _ C07_copying_merge_isolated s₁ s₂ w p h₁ h₂
+
+/-- build_defs `0` sets OPTS(=key 7) to 1, `1` sets it to 2; `multi` subincludes both, `single` only the first. -/
+def w0 : World := fun d => if d = 0 then [(7, 1)] else if d = 1 then [(7, 2)] else []
+def multi : Pkg := ⟨[0, 1], 7⟩
+def single : Pkg := ⟨[0], 7⟩
+
+/-- Why isolation is needed: with the borrowing merge, `single`'s hash depends on whether `multi` was parsed first
+    (the shape of the defect: `subinclude("//build_defs:a", "//build_defs:b")` in one package rewrites `a`'s cached
+    CONFIG for every package parsed later). -/
+theorem C07_witness_borrowed_overlay :
+    run true w0 [single] single ≠ run true w0 [multi, single] single ∧
+    run false w0 [single] single = run false w0 [multi, single] single := by decide
+
+end ParseOrder
 
 end PlzVerif.Props.C07
